@@ -96,7 +96,7 @@ def make_eom(h, M, nf, nparticles, includeOffEq):
     eom.meanFreePathScale = 3.0
     eom.wallThicknessBounds = (0.1, 100.0)
     eom.wallOffsetBounds = (-10.0, 10.0)
-    eom.thermo = types.SimpleNamespace(Tnucl=1.0)
+    eom.thermo = types.SimpleNamespace(Tnucl=2.0)
     n = M - 1
     dV = h.reals("dVdphi", (n, nf), -5, 5)
     Vv = h.reals("V", (n,), -5, 5)
@@ -142,7 +142,10 @@ def make_eom(h, M, nf, nparticles, includeOffEq):
     bres = BR(deltas)
     eom.boltzmannSolver = types.SimpleNamespace(setBackground=lambda b: None, getDeltas=lambda: bres)
 
+    eom._minimize_calls = []
+
     def fake_minimize(fun, x0, args=(), method=None, bounds=None, **kw):
+        eom._minimize_calls.append(dict(x0=np.asarray(x0), bounds=bounds, method=method))
         # the minimiser moves the wall: every parameter changes (stays inside the bounds)
         x = np.asarray(x0) * 1.25 + 0.15
         return types.SimpleNamespace(x=x, success=True, fun=None)
@@ -190,6 +193,12 @@ def h_pressure(h, M, nf, nparticles, includeOffEq, regrid):
         want = want - (math.pi / M) * math.sqrt(1 - chi[j] ** 2) * float(dzdchi[j]) * s
     h.prove_close("pressure = - int dz (dV/dphi + dV_out) . dphi/dz with the current Jacobian", p, want,
                   rtol=0, atol=TOL * 1e3)
+    lb, ub = eom._minimize_calls[0]["bounds"]
+    Tn = eom.thermo.Tnucl
+    h.prove("minimiser bounds: widths in [lo, hi]/Tn, free offsets in their bounds, Nelder-Mead", Cond(
+        b=np.allclose(np.asarray(lb, dtype=float), [0.1 / Tn] * nf + [-10.0] * (nf - 1))
+        and np.allclose(np.asarray(ub, dtype=float), [100.0 / Tn] * nf + [10.0] * (nf - 1))
+        and eom._minimize_calls[0]["method"] == "Nelder-Mead"))
     h.prove("first offset pinned to zero; returned wall = the minimiser's answer", Cond(
         b=float(wp2.offsets[0]) == 0.0 and np.allclose(wfin, np.asarray(wp.widths) * 1.25 + 0.15)
         and np.allclose(ofin[1:], np.asarray(wp.offsets)[1:] * 1.25 + 0.15)))
